@@ -240,6 +240,17 @@ def _unsliced_sort(prog):
         return False
 
 
+def _spine_chains(prog):
+    """Chain nodes of the program both of whose operands contain the same sub-program (self-duplication)."""
+    from .prog import walk
+
+    for n in walk(prog):
+        if n[0] == "chain":
+            a = {id(x) for x in walk(n[1])}
+            if any(id(x) in a and x[0] != "leaf" for x in walk(n[2])) or n[1] is n[2]:
+                yield n
+
+
 def _has_kind(prog, kind):
     from .prog import walk
 
@@ -353,13 +364,17 @@ def st_program(draw, cfg, universe=None, leaves=None):
         elif choice == "chain":
             if steer and _unsliced_sort(main):
                 continue
-            cands = [p for p in history + sides if engine_of(p, leaves) == eng and schema(p, leaves) == cols]
+            # chaining the main program with (a variation of) itself doubles the expanded tree; str / repr / hash of the
+            # library relations are linear in the *expanded* size, so self-chaining is limited to three levels
+            selfdup = sum(1 for n in _spine_chains(main))
+            pool_ = (history if selfdup < 3 else [h for h in history if h[0] == "leaf"]) + sides
+            cands = [p for p in pool_ if engine_of(p, leaves) == eng and schema(p, leaves) == cols]
             if steer:
                 cands = [p for p in cands if not _unsliced_sort(p)]
             other = None
             if cands and draw(st.integers(0, 3)) > 0:
                 other = draw(st.sampled_from(cands))
-            else:
+            elif selfdup < 3:
                 # a schema-preserving variation of the main program itself
                 keep = [k for k in cfg.unary if k in ("sel", "slice", "dedup") or (k == "sort" and not steer)]
                 if keep:
